@@ -392,6 +392,7 @@ func checkLoadOrder(w *World, r *Result) {
 	}
 	r.cond(sized, "SHP-C17o", fi.Name, "one result slot per input file", fnPos(w, fi), "out := make([]*packages.Package, len(sourceFiles))", "the result slice is not sized by the input list")
 	filled, nilErr, sameFile := false, false, false
+	matched := map[*ast.AssignStmt]bool{} // stores into the result that hold the package matched for the file of that index
 	ast.Inspect(fi.Decl.Body, func(x ast.Node) bool {
 		rs, ok := x.(*ast.RangeStmt)
 		if !ok || identOf(rs.X) == nil || objOf(info, identOf(rs.X)) != param || identOf(rs.Key) == nil {
@@ -415,14 +416,22 @@ func checkLoadOrder(w *World, r *Result) {
 				filled = true
 			}
 			// selected := selectByFile(pkgs, abs) ; abs from filepath.Abs(sourceFile)
-			if sid := identOf(as.Rhs[0]); sid != nil {
-				sel := objOf(info, sid)
-				for _, d := range defsIn(info, fi.Decl, sel) {
+			{
+				// the value stored: a variable (its definitions), or the expression itself
+				var sel types.Object
+				srcs := []ast.Expr{as.Rhs[0]}
+				if sid := identOf(as.Rhs[0]); sid != nil {
+					sel = objOf(info, sid)
+					srcs = defsIn(info, fi.Decl, sel)
+				}
+				for _, d := range srcs {
+					d = ast.Unparen(d)
 					if call, ok := d.(*ast.CallExpr); ok && strings.HasSuffix(fullName(calleeOf(info, call)), "analysis.selectByFile") && len(call.Args) == 2 {
 						if aid := identOf(call.Args[1]); aid != nil {
 							for _, d2 := range defsInRange(info, rs, objOf(info, aid)) {
 								if c2, ok := d2.(*ast.CallExpr); ok && fullName(calleeOf(info, c2)) == "path/filepath.Abs" && identOf(c2.Args[0]) != nil && objOf(info, identOf(c2.Args[0])) == val {
 									sameFile = true
+									matched[as] = true
 								}
 							}
 						}
@@ -431,7 +440,7 @@ func checkLoadOrder(w *World, r *Result) {
 				// nil check
 				ast.Inspect(rs.Body, func(z ast.Node) bool {
 					if is, ok := z.(*ast.IfStmt); ok {
-						if be, ok := ast.Unparen(is.Cond).(*ast.BinaryExpr); ok && be.Op == token.EQL && identOf(be.X) != nil && objOf(info, identOf(be.X)) == sel && es(be.Y) == "nil" && terminates(is.Body) {
+						if be, ok := ast.Unparen(is.Cond).(*ast.BinaryExpr); ok && be.Op == token.EQL && ((sel != nil && identOf(be.X) != nil && objOf(info, identOf(be.X)) == sel) || es(be.X) == es(as.Lhs[0])) && es(be.Y) == "nil" && terminates(is.Body) {
 							nilErr = true
 						}
 					}
@@ -443,6 +452,18 @@ func checkLoadOrder(w *World, r *Result) {
 		return true
 	})
 	r.cond(filled && sameFile, "SHP-C17o", fi.Name, "slot i holds the package matched for file i", fnPos(w, fi), "out[i] = selectByFile(pkgs, Abs(sourceFiles[i])) with i the range index", "the result is not filled at the input's own index with the package matched for that same file")
+	// every store into the result is such a match: a slot filled any other way (a shortcut that copies one package into
+	// every slot) reports a package for a file that is not among its sources
+	ast.Inspect(fi.Decl.Body, func(x ast.Node) bool {
+		as, ok := x.(*ast.AssignStmt)
+		if !ok || len(as.Lhs) != 1 || matched[as] {
+			return true
+		}
+		if ix, ok := as.Lhs[0].(*ast.IndexExpr); ok && identOf(ix.X) != nil && objOf(info, identOf(ix.X)) == outVar {
+			r.bad("SHP-C17o", fi.Name, "store "+normLocals(info, as.Lhs[0])+" = "+normLocals(info, as.Rhs[0]), w.Pos(as.Pos()), "this slot of the result is filled with a package that was not matched against the file of that index (selectByFile on its absolute path): a file that belongs to no loaded package — or to another one — is reported as part of this package, and the missing-file error is skipped")
+		}
+		return true
+	})
 	r.cond(nilErr, "SHP-C17o", fi.Name, "a file found in no package is an error", fnPos(w, fi), "`if selected == nil { return …, error }`", "a file that matches no loaded package yields a nil entry instead of an error")
 	// patterns
 	pat := false
